@@ -585,10 +585,23 @@ func tokenMutation(c *worker.Ctx, src []byte) ([]byte, string) {
 	if len(spans) == 0 {
 		return src, "none"
 	}
-	s := spans[c.T.Draw(len(spans))]
-	if c.T.Bool(1, 2) {
+	i := c.T.Draw(len(spans))
+	s := spans[i]
+	switch c.T.Draw(3) {
+	case 0:
 		out := append(append([]byte{}, src[:s.off]...), src[s.off+s.n:]...)
 		return out, fmt.Sprintf("delete@%d+%d", s.off, s.n)
+	case 1:
+		// delete a run of up to six consecutive tokens (a whole statement, a clause body …)
+		j := i + c.T.Draw(6)
+		if j >= len(spans) {
+			j = len(spans) - 1
+		}
+		end := spans[j].off + spans[j].n
+		if end > s.off {
+			out := append(append([]byte{}, src[:s.off]...), src[end:]...)
+			return out, fmt.Sprintf("delete-run@%d+%d", s.off, end-s.off)
+		}
 	}
 	out := append(append(append([]byte{}, src[:s.off+s.n]...), ' '), src[s.off:]...)
 	return out, fmt.Sprintf("duplicate@%d+%d", s.off, s.n)
@@ -609,6 +622,11 @@ func spliceControl(c *worker.Ctx, src []byte) ([]byte, string) {
 		pos = len(src)
 	}
 	ins := controlSplices[c.T.Draw(len(controlSplices))]
+	if c.T.Bool(1, 3) {
+		// the source ends right after the spliced form (blocks may still be open)
+		out := append(append([]byte{}, src[:pos]...), []byte(" "+ins)...)
+		return out, fmt.Sprintf("splice-and-end@%d(%q)", pos, ins)
+	}
 	out := append(append(append([]byte{}, src[:pos]...), []byte(" "+ins)...), src[pos:]...)
 	return out, fmt.Sprintf("splice@%d(%q)", pos, ins)
 }
